@@ -226,6 +226,34 @@ def correspond(ctx):
         prev = max(prev, na)
         if n == PI_2_64 and not abs(na - 18446744073709551557) < (1 << 32):
             mismatches.append({"key": "NA-bound", "what": "nthPrimeApprox(pi(2^64)) = %d" % na, "failing_input": {"fn": "nthPrimeApprox", "n": n, "value": na}})
+    # rigorous bounds at the top of the range: for n = pi(2^64) - j the n-th prime is at most P_MAX - 2j (primes above 2 are at
+    # least 2 apart), and for small j it is known exactly (walk down from the largest prime with Miller-Rabin)
+    P_MAX = 18446744073709551557
+    for idx, n in enumerate(nlist):
+        if n > PI_2_64:
+            continue
+        j = PI_2_64 - n
+        na = int(out[2 * idx]); ri = Decimal(out[2 * idx + 1].split()[1])
+        bound = P_MAX - 2 * j + (1 << 32)
+        if na > bound or ri > bound:
+            mismatches.append({"key": "Rinv-bound", "what": "R^-1(%d) = %s, nthPrimeApprox = %d, but the n-th prime is at most %d (= largest 64-bit prime - 2*(pi(2^64) - n)) and sqrt < 2^32" % (n, ri, na, P_MAX - 2 * j),
+                               "failing_input": {"fn": "RiemannR_inverse", "n": n, "value": str(ri), "nth_prime_at_most": P_MAX - 2 * j}})
+    exact = {}
+    p = P_MAX; jj = 0
+    for target in (0, 1, 10, 100, 300):
+        while jj < target:
+            p -= 2
+            while not oracle.is_prime(p):
+                p -= 2
+            jj += 1
+        exact[PI_2_64 - target] = p
+    rc3, o3, e3 = ps.run([exe], input="".join("RI %d\n" % n for n in sorted(exact)), timeout=120)
+    for n, l in zip(sorted(exact), o3.splitlines()):
+        dist["saturation"] += 1
+        ri = Decimal(l.split()[1]); pn = exact[n]
+        if abs(ri - pn) >= (1 << 32):
+            mismatches.append({"key": "Rinv-bound", "what": "R^-1(%d) = %s, the n-th prime is %d (Miller-Rabin walk from the largest 64-bit prime): error %s >= sqrt" % (n, ri, pn, abs(ri - pn)),
+                               "failing_input": {"fn": "RiemannR_inverse", "n": n, "value": str(ri), "nth_prime": pn}})
     # dense scan across the saturation threshold: n around R(2^64-1), where R^-1 crosses 2^64-1
     rc2, o2, e2 = ps.run([exe], input="PA %d\n" % MAX64, timeout=60)
     pa64 = int(o2.split()[0])
